@@ -205,7 +205,7 @@ P = {
          "stores its argument reachably on every path; Parent() and path() read the same two fields; the text of an index field is the decimal "
          "rendering of its own integer; every key FlattenedKeys emits has a context path in its derivation, the family walks both parts of a node and "
          "classifies values by toConfig; context.path takes the node without parent for the root, never an empty name, and no function that produces paths (path, pathOf, the FlattenedKeys family and their string helpers) compares a path text with the empty string (R15m); an existing node is re-contexted only next to the store that attaches it or to renumber it. Since the invariant can only be broken at a "
-         "store or a move, it holds after any operation history. A path is rendered from the parent chain on every call, never kept in a node (R15o); CompareConfigs relates the keys of the two configurations by membership only — if it compares them by order, FlattenedKeys must return sort.Strings order (R15n). FlattenedKeys' set equality and the diff partition are not decided.",
+         "store or a move, it holds after any operation history. A path is rendered from the parent chain on every call, never kept in a node (R15o); CompareConfigs relates the keys of the two configurations by membership only — if it compares them by order, FlattenedKeys must return sort.Strings order (R15n); FlattenedKeys returns the rendered paths as they are, with no rewriting of key text (R15p). FlattenedKeys' set equality and the diff partition are not decided.",
          TRUST,
          "§3 C15"),
  "C16": (True,
@@ -249,7 +249,7 @@ P = {
          "its raw value part is empty — never after the value was parsed, so null/[]/{} still override), and that the config a loader returns is "
          "made by NewFrom / New+Merge or the user's file loader, so that the flag's options apply to the value, and that Collector.Add merges "
          "only a non-nil config (an ignored argument yields none) and that an error a loader reports to the flag package is the one it hands to the "
-         "collector, and that no observer of a flag value (String — which package flag calls itself —, Get, Config, Error) reaches Collector.Add on the call graph, so that only a failing argument can stop the collection. The loader closures handed to newFlagValue keep no state between calls (R19i: every occurrence of a flag is loaded like the first), and the collector's configuration is stored by its constructor only — what is added is merged, never adopted (R19j). These are necessary structural "
+         "collector, and that no observer of a flag value (String — which package flag calls itself —, Get, Config, Error) reaches Collector.Add on the call graph, so that only a failing argument can stop the collection. The loader closures handed to newFlagValue keep no state between calls (R19i: every occurrence of a flag is loaded like the first), and the collector's configuration is stored by its constructor only — what is added is merged, never adopted (R19j); the key=value loader hands the key and the value on as split, so that 'only an empty value is ignored' is decided on the text as written (R19k). These are necessary structural "
          "clauses of C19 that hold for all argument sequences at once; equality with a sequence of merges (a value-level fact) is not decided.",
          TRUST + "Does not cover user-supplied FileLoader functions.",
          "§3 C19"),
